@@ -854,8 +854,7 @@ def grid_layout(context, box, bottom_space, skip_stack, containing_block,
                             # Free place found.
                             # 3. Set the item’s row-/column-start lines.
                             children_positions[child] = (x, y, width, height)
-                            first_diff = (
-                                cursor_first + first_size - 1 - implicit_first_2)
+                            first_diff = first_i + first_size - implicit_first_2
                             if first_diff > 0:
                                 implicit_first_2 += first_diff
                             break
@@ -957,6 +956,9 @@ def grid_layout(context, box, bottom_space, skip_stack, containing_block,
                             # Free place found.
                             # 2. Set the item’s row-/column-start lines.
                             children_positions[child] = (x, y, width, height)
+                            first_diff = first_i + first_size - implicit_first_2
+                            if first_diff > 0:
+                                implicit_first_2 += first_diff
                             break
                     else:
                         # No room found.
